@@ -69,7 +69,7 @@ Resolve(P, t) ==
   THEN Resolve(P, tds[CHOOSE i \in Idx(tds) : tds[i].name = t.n].t)
   ELSE t
 Kind(P, t) == LET u == Resolve(P, t) IN
-  CASE u.k = "base" -> u.n
+  CASE u.k = "base" -> (IF u.n = "i8" THEN "byte" ELSE u.n)      \* i8 is another spelling of byte
     [] u.k \in {"list", "set", "map"} -> u.k
     [] u.k = "ref" /\ IsEnumName(P, u.n) -> "enum"
     [] OTHER -> "struct"
